@@ -50,8 +50,9 @@ Hook2 ==  \* the other accept hook, when it is registered after the checker
        THEN Reject /\ UNCHANGED <<cfg, exchanged, authok, indexed, reader, handled, replies>>
        ELSE pc' = "serve" /\ UNCHANGED <<cfg, status, exchanged, authok, indexed, reader, handled, closed, replies>>
 \* the three steps that put an accepted session into service, in the order of the code path taken:
-\* ServeConn: status Ok, reader goroutine, index;  accept loop: index, status Ok, reader (in the accepting goroutine)
-Order == IF cfg.path = "listen" THEN <<"index", "ok", "reader">> ELSE <<"ok", "reader", "index">>
+\* ServeConn: status Ok, index, reader goroutine (since fix 770e573; before it: Ok, reader, index);
+\* accept loop: index, status Ok, reader (in the accepting goroutine)
+Order == IF cfg.path = "listen" THEN <<"index", "ok", "reader">> ELSE <<"ok", "index", "reader">>
 Serve ==
   /\ pc \in {"serve", "serve2", "serve3"}
   /\ LET k == CASE pc = "serve" -> 1 [] pc = "serve2" -> 2 [] OTHER -> 3
@@ -62,7 +63,7 @@ Serve ==
         /\ pc' = (CASE k = 1 -> "serve2" [] k = 2 -> "serve3" [] OTHER -> "handle")
   /\ UNCHANGED <<cfg, exchanged, authok, handled, closed, replies>>
 NPipe == CASE cfg.pipe = "none" -> 0 [] cfg.pipe = "callpush" -> 2 [] OTHER -> 1
-Handle == \* the reader handles the pipelined frames (it may run before ServeConn has indexed the session)
+Handle == \* the reader handles the pipelined frames
   /\ reader /\ pc \in {"serve3", "handle"} /\ handled < NPipe /\ handled' = handled + 1
   /\ replies' = IF cfg.pipe = "call" \/ (cfg.pipe = "callpush" /\ handled = 0) THEN Append(replies, "reply") ELSE replies
   /\ UNCHANGED <<cfg, pc, status, exchanged, authok, indexed, reader, closed>>
